@@ -150,9 +150,25 @@ def arith_inputs(model, suffix=''):
     return s, sc, q, qc, n
 
 
-def battery_conf(model):
+def phi(z):
+    import math
+    return 0.5 * (1.0 + math.erf(z / math.sqrt(2.0)))
+
+
+def battery_conf(model, extreme=False):
     L = model_float(model, 'L', 0.95)
     L = min(max(L, 0.0005), 0.9995)
+    extra = []
+    for zname in ('Z', 'Z2'):
+        if zname in (model or {}):
+            z = model_float(model, zname, 1.96)
+            if -8 < z < 8:
+                p = min(max(phi(z), 1e-9), 1 - 1e-9)
+                extra += [(1, p), (2, p)]
+                if z > 0:
+                    extra.append((0, min(max(2 * p - 1, 1e-9), 1 - 1e-9)))
+    if extreme:
+        extra += [(0, 0.999), (0, 0.9999), (1, 0.9995), (2, 0.9995), (1, 0.99995), (2, 0.99995)]
     k = model.get('kind')
     ks = []
     try:
@@ -164,7 +180,7 @@ def battery_conf(model):
         for ll in (L, 0.95, 0.3, 0.6):
             if (kk, ll) not in out and 0 <= kk <= 2:
                 out.append((kk, ll))
-    return out
+    return extra + out
 
 
 def replay_arith(ctx, model, what, prefix='arith', transform=None):
@@ -284,13 +300,13 @@ def replay_proportion(ctx, model, what, fam='wilson'):
     cases = []
     if lo_dom <= k <= n - lo_dom:
         cases.append((n, k))
-    cases += [(400, 120), (500, 421), (10000, 89), (36037, 10), (20, 10), (100000, 3), (250000, 2), (300, 3), (40, 37), (1000, 997)]
+    cases += [(400, 120), (500, 421), (10000, 89), (36037, 10), (20, 10), (100000, 3), (250000, 2), (300, 3), (40, 37), (1000, 997), (1000, 10), (400, 390), (5000, 10), (200, 10), (200, 190), (100, 90)]
     cmdname = 'wilson' if fam == 'wilson' else 'z_normal'
     spec = spec_wilson if fam == 'wilson' else spec_wald
     for (nn, kk) in cases:
         if not (lo_dom <= kk <= nn - lo_dom):
             continue
-        for kind, L in battery_conf(model) + [(1, 0.05), (2, 0.05), (1, 0.2)]:
+        for kind, L in battery_conf(model, extreme=True) + [(1, 0.05), (2, 0.05), (1, 0.2)]:
             cmd = '%s %d %d %d %s' % (cmdname, nn, kk, kind, bits(L))
             got = parse_result(drv.run([cmd])[0])
             exp = spec(drv, nn, kk, kind, L)
@@ -433,3 +449,57 @@ def confirm_history(ctx, what='history independence'):
                                                     'deviation': 'the result of a call depends on the calls made before it'})
             return True, path, 'in sequence %s, alone %s' % (together, alone)
     return False, None, 'results do not depend on the call history on the battery'
+
+
+def replay_domain(ctx, model, what, fam='wald'):
+    """outcome class (Ok / which error) of a proportion method on the model's counts against the documented domain"""
+    drv = Driver.get(ctx)
+    cands = []
+    try:
+        cands.append((int(round(model_float(model, 'n', 0))), int(round(model_float(model, 'k', 0)))))
+    except Exception:
+        pass
+    cands += [(0, 0), (36037, 10), (620491, 10), (100, 9), (100, 91), (20, 10), (5, 6), (30, 1), (30, 29)]
+    lo = 10 if fam == 'wald' else 2
+    for n, k in cands:
+        if n < 0 or k < 0:
+            continue
+        got = parse_result(drv.run(['%s %d %d 0 %s' % ('z_normal' if fam == 'wald' else 'wilson', n, k, bits(0.95))])[0])
+        want = 'InvalidSuccesses' if k > n else 'TooFewSuccesses' if k < lo else 'TooFewFailures' if n - k < lo else 'ok'
+        have = 'ok' if got[0] == 'ok' else got[1] if got[0] == 'err' else 'panic'
+        nan = got[0] == 'ok' and any(x != x for x in got[2])
+        if have != want or nan:
+            path = save(ctx, what, {'property': ctx.pid, 'what': what, 'command': '%s %d %d two 0.95' % (fam, n, k), 'native': got, 'documented_outcome': want,
+                                    'deviation': 'outcome %s%s, documented domain says %s' % (have, ' with NaN bounds' if nan else '', want)})
+            return True, path, 'n=%d k=%d: %s vs %s' % (n, k, have, want)
+    return False, None, 'outcome classes agree with the documented domain on the model-derived counts'
+
+
+def replay_relative_to(ctx, model, what):
+    drv = Driver.get(ctx)
+    g = lambda n, d: model_float(model, n, d)
+    cases = [(0, g('x', 2.0), g('y', 4.0), 0, g('a', 2.0), g('b', 4.0)), (0, 2.0, 4.0, 0, 2.0, 4.0), (0, 1.0, 3.0, 0, 2.0, 5.0), (1, 2.0, 2.0, 0, 1.0, 4.0), (0, 1.0, 3.0, 1, 2.0, 2.0), (0, 3.0, 3.0, 0, 3.0, 3.0)]
+    for ks, x, y, kr, a, b in cases:
+        if not (0 <= x <= y and 0 < a <= b):
+            continue
+        got = parse_result(drv.run(['relative_to %d %s %s %d %s %s' % (ks, bits(x), bits(y), kr, bits(a), bits(b))])[0])
+        if got[0] != 'ok':
+            continue
+        # members to probe: the corners
+        xs = [x] + ([y] if ks == 0 else [x * 3 + 1])
+        rs = [a] + ([b] if kr == 0 else [a * 3 + 1])
+        lo = got[2][0] if got[1] in ('two', 'upper') else float('-inf')
+        hi = got[2][-1] if got[1] in ('two', 'lower') else float('inf')
+        for X in xs:
+            for R in rs:
+                v = (X - R) / R
+                if not (lo - 1e-12 <= v <= hi + 1e-12):
+                    path = save(ctx, what, {'property': ctx.pid, 'what': what, 'command': 'relative_to self kind %d [%r,%r] reference kind %d [%r,%r]' % (ks, x, y, kr, a, b), 'native': got,
+                                            'deviation': 'x=%r in self, r=%r in the reference: (x-r)/r = %r is not in the result' % (X, R, v)})
+                    return True, path, '(x-r)/r = %r outside %s' % (v, got)
+        # attained bounds
+        exp_lo, exp_hi = (x - b) / b if kr == 0 else None, (y - a) / a if ks == 0 else None
+        if got[1] == 'two' and (abs(got[2][0] - exp_lo) > 1e-12 * max(1, abs(exp_lo)) or abs(got[2][1] - exp_hi) > 1e-12 * max(1, abs(exp_hi))):
+            path = save(ctx, what, {'property': ctx.pid, 'what': what, 'native': got, 'reference': [exp_lo, exp_hi], 'deviation': 'bounds are not attained at the endpoints'})
+            return True, path, 'bounds %s vs %s' % (got[2], [exp_lo, exp_hi])
+    return False, None, 'relative_to encloses and attains on the model-derived inputs'
